@@ -190,18 +190,29 @@ def _freeze(v):
 
 
 class SharedOptions:
-    """One ExportOptions object that lives as long as a run.  Before every use its fields are set to what
-    kernpy's own keyword parser gives for the keywords of dumps(); a container field whose new value equals the current
-    one keeps the current OBJECT (a caller who holds a selection in a variable).  The export through it must equal the
-    export through keywords, and the object must come back as it was handed in."""
+    """One ExportOptions object that lives as long as a run - the caller who builds his options once and keeps using them.
+    Before a use only the fields whose WANTED value differs from the value assigned last time are assigned (values come from
+    kernpy's own keyword parser); a selection that stays the same keeps the same container OBJECT, a new selection rotates
+    the container form (set / list / tuple).  Whatever an export writes into the object therefore stays there for the next
+    use, as it would for that caller.  The export through the object must equal the export through keywords; that the object
+    comes back unchanged is C14's statement and is only reported as a diagnostic here (`prob`)."""
 
     def __init__(self):
         self.o = kp.ExportOptions()
         self.uses = 0
         self.forms = 0
+        self.last = {}
+
+    @staticmethod
+    def _value(v):
+        if isinstance(v, (set, frozenset)):
+            return ('unordered', tuple(sorted(map(str, v))))
+        if isinstance(v, (list, tuple)):
+            return ('ordered', tuple(map(str, v)))
+        return ('scalar', v)
 
     def export(self, doc, **kw):
-        """-> (text, exception, problem or None).  kw in the vocabulary of dumps()."""
+        """-> (text, exception, diagnostic or None).  kw in the vocabulary of dumps()."""
         from kernpy.core.generic import Generic
         kw2 = dict(kw)
         if 'encoding' in kw2:
@@ -209,17 +220,14 @@ class SharedOptions:
         fresh = Generic.parse_options_to_ExportOptions(**kw2)
         for f in OPT_FIELDS:
             new = getattr(fresh, f)
-            cur = getattr(self.o, f, None)
+            val = self._value(new)
+            if self.last.get(f, ('unset',)) == val:
+                continue            # unchanged since the last use: the caller does not touch the field
+            self.last[f] = val
             if isinstance(new, (set, frozenset, list, tuple)):
-                same = isinstance(cur, (set, frozenset, list, tuple)) and (
-                    set(cur) == set(new) if isinstance(new, (set, frozenset)) else list(cur) == list(new))
-                if same:
-                    continue        # the caller keeps the selection in a variable: same object as in the previous use
-                # a new selection: the container form rotates (ExportOptions documents lists; sets and tuples are accepted alike)
                 self.forms += 1
                 if f == 'token_categories':
-                    items = sorted(new, key=lambda c: c.name)
-                    new = [set, list, tuple][self.forms % 3](items)
+                    new = [set, list, tuple][self.forms % 3](sorted(new, key=lambda c: c.name))
                 elif isinstance(new, (list, tuple)):
                     new = [list, tuple][self.forms % 2](new)
             setattr(self.o, f, new)
@@ -233,10 +241,13 @@ class SharedOptions:
         changed = [f for f in OPT_FIELDS if before[f] != after[f]]
         prob = None
         if changed:
-            prob = f'the export changed the caller\'s options object: {", ".join(f"{f}: {before[f]!r} -> {after[f]!r}"[:160] for f in changed)}'
-            # hand the next use a clean object, so that one mutation is reported once per use and not inherited
-            self.o = kp.ExportOptions()
+            prob = ('the export wrote into the options object: ' +
+                    ', '.join(f'{f}: {before[f]!r} -> {after[f]!r}'[:120] for f in changed))
         return out, exc, prob
+
+    def reset(self):
+        self.o = kp.ExportOptions()
+        self.last = {}
 
 
 def same_outcome(a_text, a_exc, b_text, b_exc):
@@ -252,7 +263,8 @@ _SHARED = None
 
 def shared_options_check(ctx, doc, kw, ref_text, ref_exc, case, key='options-object'):
     """The export `kw` of `doc` again through the process-wide long-lived ExportOptions object (kp.export): same outcome as the
-    keyword call (ref_text / ref_exc), options object unchanged by the call."""
+    keyword call (ref_text / ref_exc).  What the export writes into the object is left in it (and counted): it shows when it
+    changes a later result."""
     global _SHARED
     if _SHARED is None:
         _SHARED = SharedOptions()
@@ -264,12 +276,49 @@ def shared_options_check(ctx, doc, kw, ref_text, ref_exc, case, key='options-obj
         return True
     ok = True
     if prob:
-        ctx.violation(key, prob, dict(case, options=str(kw)))
-        ok = False
+        ctx.mon('options_object_written_by_export (C14 decides)')
+        _SHARED.notes = prob
     if not same_outcome(ref_text, ref_exc, out, exc):
-        ctx.violation(key, f'export through a reused ExportOptions object ({_SHARED.uses} uses so far) '
+        ctx.violation(key, f'export through a long-lived ExportOptions object (use #{_SHARED.uses}) '
                       f'{"raised " + type(exc).__name__ + ": " + str(exc)[:80] if exc is not None else "returned " + str(len(out)) + " chars"}, '
                       f'the keyword call {"raised " + type(ref_exc).__name__ if ref_exc is not None else "returned " + str(len(ref_text)) + " chars"} '
-                      f'for {str(kw)[:200]}', dict(case, options=str(kw)))
+                      f'for {str(kw)[:160]}' + (f'; {getattr(_SHARED, "notes", "")[:200]}' if getattr(_SHARED, 'notes', None) else ''),
+                      dict(case, options=str(kw)))
         ok = False
+        _SHARED.reset()       # start again from a clean object so that one divergence is not inherited by every later use
+        _SHARED.notes = None
     return ok
+
+
+_FIXED = {}
+
+
+def fixed_options_check(ctx, doc, kw, ref_text, ref_exc, case, key='options-object'):
+    """One ExportOptions object per distinct option set `kw` (dumps vocabulary), built the first time the set is seen and never
+    touched again by the harness - "the first two measures of every score of the corpus".  Same outcome as the keyword call."""
+    from kernpy.core.generic import Generic
+    k = repr(sorted((a, SharedOptions._value(b)) for a, b in kw.items()))
+    if k not in _FIXED:
+        kw2 = dict(kw)
+        if 'encoding' in kw2:
+            kw2['kern_type'] = kw2.pop('encoding')
+        try:
+            _FIXED[k] = [Generic.parse_options_to_ExportOptions(**kw2), 0]
+        except Exception as e:  # noqa
+            ctx.mon(f'fixed_options_keywords_refused:{type(e).__name__}')
+            return True
+    ent = _FIXED[k]
+    ent[1] += 1
+    ctx.mon('exports_through_fixed_options_objects')
+    try:
+        out, exc = kp.export(doc, ent[0]), None
+    except Exception as e:  # noqa
+        out, exc = None, e
+    if same_outcome(ref_text, ref_exc, out, exc):
+        return True
+    ctx.violation(key, f'export #{ent[1]} through an ExportOptions object built once for {str(kw)[:120]} and reused for every document '
+                  f'{"raised " + type(exc).__name__ + ": " + str(exc)[:80] if exc is not None else "returned " + str(len(out)) + " chars"}, '
+                  f'the keyword call {"raised " + type(ref_exc).__name__ if ref_exc is not None else "returned " + str(len(ref_text)) + " chars"}',
+                  dict(case, options=str(kw), reused_fixed_options=True))
+    del _FIXED[k]
+    return False
